@@ -33,7 +33,17 @@ ROOT = '{ROOT}'
 THEOREMS = ['BB.Props.C17.' + n for n in (
     'cli_failure_untouched_hex', 'cli_failure_untouched', "cli_failure_untouched'", 'cli_success_files',
     'cli_success_hex_decodes', 'plan_error_untouched', 'plan_error_ne0', 'bad_offset_exits', 'labelText_lines',
-    'plan_offset_in_range', 'out_of_range_offset_exits', 'cli_failure_untouched_range', 'hex_roundtrip', 'hexOk_encode')]
+    'plan_offset_in_range', 'out_of_range_offset_exits', 'cli_failure_untouched_range', 'hex_roundtrip', 'hexOk_encode')] + [
+    'BB.Props.C17.assembler_failure_untouched',
+    'BB.Props.C17.os_failure_prefix',
+    'BB.Props.C17.os_failure_after_labels_written',
+    'BB.Props.C17.not_cliFailureUntouched',
+    'BB.Props.C17.plan_error_not_os',
+    'BB.Props.C17.labelsStep_ok',
+    'BB.Props.C17.labelsStep_error',
+    'BB.Props.C17.os_assembles',
+    'BB.Props.C17.os_plan',
+]
 
 RULE = ('cases = small seeded programs (progs.gen_program without filler runs; optionally an `include part.asm` found in an -i '
         'directory, or `include GD32VF103.asm` with --include-definitions) x options: -c, -v, -i DIR (relative / absolute), '
